@@ -860,7 +860,7 @@ def draw_plan(seed: int, n: int, iaf_every: int) -> list:
 
 def run(run: Run) -> None:
     q = run.tier == "quick"
-    nprog = int(os.environ.get("VERIF_C01_PROGRAMS", "300" if q else "8000"))
+    nprog = int(os.environ.get("VERIF_C01_PROGRAMS", "260" if q else "8000"))
     nperturb = 1
     budget = 100 if q else 1000
     run.rule = (
